@@ -10,9 +10,8 @@ from props.C05 import (finite, close, availability, run_value_cases, set_betas, 
                        value_case_cnl, load_corpus)
 
 ASSUME = base.ASSUME + [
-    'T06e: every nest contains an available alternative and lists each alternative once (check_partition does not '
-    'reject a repetition inside one nest; with a repetition the generating function and the published ln G_i really '
-    'are inconsistent -- outside the quantifier of the property, reported as an observation)',
+    'T06e: every nest contains an available alternative (0 ** x is outside the regular domain of evalX); that a '
+    'nest lists each alternative once is derived from the builder returning Ok (check_partition refuses a repetition)',
 ]
 TRUSTED = base.TRUSTED + [
     'Coquelicot 3 (is_derive) for the generating-function theorem',
